@@ -17,6 +17,7 @@
 package main
 
 import (
+	"bytes"
 	"crypto"
 	"crypto/ecdsa"
 	"crypto/ed25519"
@@ -447,6 +448,12 @@ func record(out, keysPath string, n int, algs []string, ar bool, only int) {
 			var every bool
 			if c, every = specialMsg(r, i); every {
 				msgAlgs = all
+				if i == idxLarge20k && !hx.Thorough() { // quick: ED25519 (its "hash" is the message itself) and one more
+					msgAlgs = []string{"ED25519", algs[0]}
+					if algs[0] == "ED25519" {
+						msgAlgs[1] = algs[len(algs)-1]
+					}
+				}
 			}
 		}
 		packed, err := c.m.Pack()
@@ -525,11 +532,19 @@ type evVerify struct {
 	KeyOk    bool   `json:"keyok"` // the KEY record holds the signer's or another well-formed public key
 	SigValid bool   `json:"sigvalid"`
 	Accepted bool   `json:"accepted"`
-	Err      string `json:"err"`
+	// the octets handed to Verify are the same after the call (for an "after-" event: after both calls)
+	Unchanged bool   `json:"unchanged"`
+	Err       string `json:"err"`
 }
 
 // the receiver: unpack, take the last additional record as the SIG, verify.  err != nil = rejected.
+// modified: did the last receive/direct call change the octets it was given?  (Verify has no business writing
+// to its input, whatever it returns.)
+var modified bool
+
 func receive(k *dns.KEY, buf []byte) (err error, panicked string) {
+	before := append([]byte(nil), buf...)
+	defer func() { modified = !bytes.Equal(before, buf) }()
 	panicked = hx.Catch(func() {
 		m := new(dns.Msg)
 		if e := m.Unpack(buf); e != nil {
@@ -551,6 +566,8 @@ func receive(k *dns.KEY, buf []byte) (err error, panicked string) {
 }
 
 func direct(rr *dns.SIG, k *dns.KEY, buf []byte) (err error, panicked string) {
+	before := append([]byte(nil), buf...)
+	defer func() { modified = !bytes.Equal(before, buf) }()
 	panicked = hx.Catch(func() { err = rr.Verify(k, buf) })
 	return
 }
@@ -663,20 +680,40 @@ func finish(eventsPath, emitPath, keysPath, verifyPath string) {
 					variant{"key-empty", withPublic(keyrr, nil), nil},
 					variant{"key-otherlen", withPublic(keyrr, ol), nil})
 			}
+			rightValid := stdVerify(k0.priv.Public(), em.Hash, signed.Bytes(), buf[em.SigOff:])
 			for _, v := range vs {
 				sum.Evaluations++
 				now := time.Now().Unix()
-				err, pan := receive(v.k, buf)
+				b := append([]byte(nil), buf...) // the caller's buffer: used for this call and, if it fails, for the next one
+				err, pan := receive(v.k, b)
 				if pan != "" {
 					sum.Mis("sig0/verify-panics:"+v.name, "panic: "+pan, map[string]interface{}{"id": e.Id, "variant": v.name})
 					continue
 				}
 				ev := evVerify{Ev: "verify", Id: e.Id, Variant: names[bi] + "/" + v.name, Buf: hx.FromBytes(buf), KeyOwner: hx.FromString(v.k.Hdr.Name), Now: be32(uint32(now)),
-					Signed: signed, KeyOk: v.pub != nil, SigValid: v.pub != nil && stdVerify(v.pub, em.Hash, signed.Bytes(), buf[em.SigOff:]), Accepted: err == nil}
+					Signed: signed, KeyOk: v.pub != nil, SigValid: v.pub != nil && stdVerify(v.pub, em.Hash, signed.Bytes(), buf[em.SigOff:]), Accepted: err == nil, Unchanged: !modified}
 				if err != nil {
 					ev.Err = err.Error()
 				}
 				w.Emit(ev)
+				if err == nil || len(buf) > 1000 && v.name != "key-other" {
+					continue
+				}
+				// a failed verification, then the matching KEY on the very same buffer: Verify is a function of the
+				// octets, the KEY and the time, so the outcome is that of verifying the message as it was received
+				sum.Evaluations++
+				now = time.Now().Unix()
+				err2, pan2 := receive(keyrr, b)
+				if pan2 != "" {
+					sum.Mis("sig0/verify-panics:after-"+v.name, "panic: "+pan2, map[string]interface{}{"id": e.Id, "variant": v.name})
+					continue
+				}
+				ev2 := evVerify{Ev: "verify", Id: e.Id, Variant: names[bi] + "/after-" + v.name, Buf: hx.FromBytes(buf), KeyOwner: hx.FromString(keyrr.Hdr.Name), Now: be32(uint32(now)),
+					Signed: signed, KeyOk: true, SigValid: rightValid, Accepted: err2 == nil, Unchanged: bytes.Equal(b, buf)}
+				if err2 != nil {
+					ev2.Err = err2.Error()
+				}
+				w.Emit(ev2)
 			}
 		}
 		later = append(later, func() { tamper(e, em, keyrr, bufs, names, &sum, &tampered, &truncated) })
@@ -734,8 +771,12 @@ func tamper(e *evSign, em *emitted, keyrr *dns.KEY, bufs [][]byte, names []strin
 					*tampered++
 					sum.Evaluations++
 					e1, p1 := direct(orig, keyrr, t)
+					m1 := modified
 					e2, p2 := receive(keyrr, t)
 					c := map[string]interface{}{"id": e.Id, "buf": names[bi], "offset": off, "bit": bit, "region": rg.What}
+					if m1 || modified {
+						sum.Mis("sig0/verify-modifies-input:tampered", fmt.Sprintf("Verify changed the octets it was given (bit %d of octet %d altered beforehand)", bit, off), c)
+					}
 					if p1 != "" || p2 != "" {
 						sum.Mis("sig0/verify-panics:tampered:"+rg.What, "panic: "+p1+p2, c)
 					} else if rg.Must == "reject" && (e1 == nil || e2 == nil) {
@@ -750,8 +791,13 @@ func tamper(e *evSign, em *emitted, keyrr *dns.KEY, bufs [][]byte, names []strin
 			}
 			*truncated++
 			sum.Evaluations++
-			e1, p1 := direct(orig, keyrr, buf[:n:n])
-			e2, p2 := receive(keyrr, buf[:n:n])
+			t := append([]byte(nil), buf[:n]...)
+			e1, p1 := direct(orig, keyrr, t)
+			m1 := modified
+			e2, p2 := receive(keyrr, t)
+			if m1 || modified {
+				sum.Mis("sig0/verify-modifies-input:truncated", fmt.Sprintf("Verify changed the octets it was given (message cut to %d of %d octets)", n, len(buf)), map[string]interface{}{"id": e.Id, "buf": names[bi], "length": n, "of": len(buf)})
+			}
 			c := map[string]interface{}{"id": e.Id, "buf": names[bi], "length": n, "of": len(buf)}
 			if p1 != "" || p2 != "" {
 				sum.Mis("sig0/verify-panics:truncated", fmt.Sprintf("cut to %d of %d octets: panic: %s%s", n, len(buf), p1, p2), c)
